@@ -50,7 +50,7 @@ pub fn cases(quick: bool, seed: u64) -> Vec<Value> {
     subtag_cases(&mut out, "region", SubtagKind::Region, gen::REGIONS, &mut r, 8 * k);
     subtag_cases(&mut out, "variant", SubtagKind::Variant, gen::VARIANTS, &mut r, 12 * k);
     // langid!
-    for s in ["en", "und", "UND-latn", "en_us", "EN-latn-us-VALENCIA-1996", "sr-Cyrl-RS", "de-1996-macos-1996", "zh-Hant-TW", "und-419", "abcdefgh-abcde"] {
+    for s in ["en", "und", "UND-latn", "en_us", "EN-latn-us-VALENCIA-1996", "sr-Cyrl-RS", "de-1996-macos-1996", "zh-Hant-TW", "und-419", "abcdefgh-abcde", "undef-Latn-US", "UNDabcde", "en-Latn-001-valencia-1996-macos-abcdefgh-12345-zzzzz-a1b2c-nedis-fonipa"] {
         out.push(json!({"macro": "langid", "lits": [s], "expect": "ok"}));
     }
     for s in ["", "e", "en-", "en--US", "en-US-u-ca-buddhist", "en-abcd-Latn", "english-language-x", "en-US-US", "en US", "en-\u{e9}", "-en", "en-u"] {
@@ -78,7 +78,7 @@ pub fn cases(quick: bool, seed: u64) -> Vec<Value> {
     for s in [
         "en", "und", "en-US-u-hc-h12", "en-t-k0-dvorak-u-ca-buddhist", "en-t-en-us-k0-dvorak-x-foo", "en-u-foo-bar-ca-buddhist-true-nu-thai",
         "EN_u_CA_Buddhist", "und-x-a", "de-t-de-latn-at-1996-h0-hybrid-u-hc-h12-x-a-b", "en-u-ca-true", "en-t-k0-true", "en-u-ca-abc-t-k0-abc",
-        "en-x-u-ca", "zh-Hant-TW-u-1a-abc",
+        "en-x-u-ca", "zh-Hant-TW-u-1a-abc", "undef-u-ca-abc", "en-x-a", "de_X_1", "en-t-undef-latn",
     ] {
         out.push(json!({"macro": "locale", "lits": [s], "expect": "ok"}));
     }
@@ -105,7 +105,8 @@ pub fn cases(quick: bool, seed: u64) -> Vec<Value> {
     // list macros
     for (mac, is_loc) in [("langids", false), ("langid_slice", false), ("locales", true)] {
         for i in 0..(10 * k) {
-            let n = if i == 0 { 0 } else { 1 + r.below(4) };
+            // i == 0: empty list; i == 1: one very long list (expansion depth / recursion limits); else short lists
+            let n = if i == 0 { 0 } else if i == 1 { 150 + r.below(60) } else { 1 + r.below(4) };
             let mut lits: Vec<String> = vec![];
             let poison = i % 3 == 2;
             while lits.len() < n {
